@@ -1921,7 +1921,18 @@ fn jsx_member_to_expr(jsx_member_expr: &JSXMemberExpr) -> Expr {
             JSXObject::Ident(ident) => Expr::Ident(ident.clone()),
             JSXObject::JSXMemberExpr(expr) => jsx_member_to_expr(expr),
         }),
-        prop: MemberProp::Ident(jsx_member_expr.prop.clone()),
+        // a JSX name may contain `-`: `<ns.my-el />` is `ns["my-el"]`, not `ns.my - el`
+        prop: if jsx_member_expr.prop.sym.contains('-') {
+            MemberProp::Computed(ComputedPropName {
+                span: DUMMY_SP,
+                expr: Box::new(Expr::Lit(Lit::Str(quote_str!(jsx_member_expr
+                    .prop
+                    .sym
+                    .clone())))),
+            })
+        } else {
+            MemberProp::Ident(jsx_member_expr.prop.clone())
+        },
     })
 }
 
